@@ -95,6 +95,8 @@ def array_cfg(rng, tier, prop, families):
         cfg["max_len"], cfg["max_rank"], cfg["big"] = rng.choice([rng.randint(6, 24)] * 4 + [rng.randint(101, 130)]), min(cfg["max_rank"], 2), True
     if rng.random() < 0.15:
         cfg["dtypes"] = cfg["dtypes"] + ["f4"]
+    if rng.random() < 0.1:
+        cfg["inf_rate"] = 0.05
     cfg["min_len"] = min(cfg["min_len"], cfg["max_len"])
     cfg["scenario_rate"] = {"C05": rng.choice([0.0, 0.1, 0.25]), "C15": rng.choice([0.0, 0.0, 0.1]), "C16": 0.0}[prop]
     return cfg
